@@ -22,7 +22,8 @@ numpy implementations of the vendors' documented gate definitions, qubit order a
           cirq.Result vs the Born distribution of the circuit.
   AQT   * AQTSampler._generate_json -> legacy list -> reference interpreter, and _parse_legacy_circuit_json ->
           Arnica operation list -> reference interpreter; measurement placement rules; AQTSamplerLocalSimulator
-          (ideal) under a scripted numpy PRNG: exact distribution of the sampled rows.
+          (ideal) under a scripted numpy PRNG: exact distribution of the sampled rows (key 'm' over the whole register,
+          column i = qubit i), padded circuits and un-padded ones with idle first / middle / last / all qubits, sweeps.
   Pasqal* request body = cirq JSON of the resolved circuit (round trip equality + unitary), results decoded into the
           right keys (requests-level fake).
 """
@@ -1509,7 +1510,7 @@ def aqt_cases(tier):
 
 def describe_aqt(case):
     seq, r, pad = case
-    return {"letters": [_G["aqt"][i][0] for i in seq], "resolver": AQT_RESOLVERS[r], "padded": pad}
+    return {"letters": [_G["aqt"][i][0] for i in seq], "resolver": (AQT_RESOLVERS if r == 2 else AQT_RESOLVERS[r]), "padded": pad}
 
 
 def _aqt_pad():
@@ -1671,6 +1672,13 @@ def aqt_local_cases(tier):
     # an explicit terminal measurement (documented as allowed): the result is still key 'm' over the whole register
     meas_idx = [i for i, l in enumerate(L) if cirq.is_measurement(l[1])]
     out += [((i, mi), 0, 1) for i in idx for mi in meas_idx]
+    # UN-padded circuits whose register (qubits 0..2) is spanned only by the explicit terminal measurement of all
+    # qubits: qubits without any gate (idle first / middle / last qubit, the all-idle register) must still be
+    # reported -- key 'm' over the whole register, column i = qubit i.  Resolver index 2 = sweep over both resolvers.
+    m_all = [i for i in meas_idx if len(L[i][1].qubits) == 3][0]
+    out += [((m_all,), r, 0) for r in (0, 2)]
+    out += [((i, m_all), r, 0) for i in gate_idx for r in (0, 1, 2)]
+    out += [((i, j, m_all), 2, 0) for i in idx for j in idx]
     if tier == "thorough":
         out += [(s, 1, 1) for s in itertools.product(gate_idx, repeat=2)]
         out += [(s, 0, 1) for s in itertools.product(idx[::2], repeat=3)]
@@ -1682,18 +1690,17 @@ def run_aqt_local(case):
     L = _G["aqt"]
     ops = (_aqt_pad() if pad else []) + [L[i][1] for i in seq]
     names = (["pad"] if pad else []) + [L[i][0] for i in seq]
-    resolver = AQT_RESOLVERS[ri]
+    resolvers = list(AQT_RESOLVERS) if ri == 2 else [AQT_RESOLVERS[ri]]
     circuit = cirq.Circuit(ops)
     nq = len(circuit.all_qubits())
     dense = max(q.x for q in circuit.all_qubits()) < nq
     sampler = _aqt_sampler_mod.AQTSamplerLocalSimulator(simulate_ideal=True)
-
     has_meas = any(cirq.is_measurement(o) for o in ops)
 
     def run(ch):
         with _Patched(np.random, "choice", _ScriptedNumpyChoice(ch)):
             try:
-                return sampler.run_sweep(circuit, params=[resolver], repetitions=1)
+                return sampler.run_sweep(circuit, params=resolvers, repetitions=1)
             except (AttributeError, KeyError) as e:
                 if has_meas:
                     return e
@@ -1705,32 +1712,39 @@ def run_aqt_local(case):
         except IndexError:
             return Res(skipped=True, nontrivial=False, counters={"sparse_rejected": 1})
         return bad(f"AQT local simulator ran circuit {names} whose qubit indices exceed the declared qubit count {nq}", kind="aqt_local")
-    got = collections.defaultdict(float)
+    got = [collections.defaultdict(float) for _ in resolvers]
     npaths = 0
-    for ch, results in explore(run, max_paths=64):
+    for ch, results in explore(run, max_paths=4096):
         npaths += 1
         if isinstance(results, Exception):
             return bad(f"AQT local simulator crashes on a circuit with one terminal measurement ({names}): {type(results).__name__}: {results}. "
                        f"The AQT docs allow exactly one measurement at the end of the circuit.", kind="aqt_measurement_crash")
-        if len(results) != 1 or set(results[0].measurements) != {"m"}:
-            return bad(f"AQT local simulator: expected one result with key 'm', got {results}", kind="aqt_local")
-        m = results[0].measurements["m"]
-        if m.shape != (1, nq):
-            return bad(f"AQT local simulator: measurements shape {m.shape}, expected {(1, nq)}", kind="aqt_local")
-        got[tuple(int(x) for x in m[0])] += ch.weight
-    resolved = cirq.resolve_parameters(circuit, resolver)
-    U = _ref_unitary([o for o in resolved.all_operations() if not cirq.is_measurement(o)], nq)
-    exp = {}
-    for i in range(2 ** nq):
-        p = float(abs(U[i, 0]) ** 2)
-        if p > 1e-9:
-            exp[_bits_be(i, nq)] = p
-    if not _cmp_dist(dict(got), exp, atol=2e-5):
-        return bad(f"AQT local simulator: distribution of sampled rows (column j = qubit j) {dict(got)} != Born distribution {exp} for {names} / {resolver}",
-                   kind="aqt_local")
-    if dict(results[0].params.param_dict) and {str(k_): v for k_, v in results[0].params.param_dict.items()} != resolver:
-        return bad(f"AQT local simulator: result params {results[0].params}", kind="aqt_local")
-    return good(nontrivial=len(exp) >= 2, paths=npaths)
+        if len(results) != len(resolvers):
+            return bad(f"AQT local simulator: {len(resolvers)} resolvers -> {len(results)} results", kind="aqt_local")
+        for j, res in enumerate(results):
+            if set(res.measurements) != {"m"}:
+                return bad(f"AQT local simulator: expected exactly the key 'm', got {set(res.measurements)} for {names}", kind="aqt_local")
+            m = res.measurements["m"]
+            if m.shape != (1, nq):
+                return bad(f"AQT local simulator: 'm' has shape {m.shape} for circuit {names} on a register of {nq} qubits; the documented contract "
+                           f"is one column per qubit of the register (column i = qubit i), expected {(1, nq)}", kind="aqt_local")
+            got[j][tuple(int(x) for x in m[0])] += ch.weight  # marginal of resolver j over the other resolvers' draws
+            if dict(res.params.param_dict) and {str(k_): v for k_, v in res.params.param_dict.items()} != resolvers[j]:
+                return bad(f"AQT local simulator: result {j} carries params {res.params}, expected {resolvers[j]}", kind="aqt_local")
+    nontrivial = False
+    for j, resolver in enumerate(resolvers):
+        resolved = cirq.resolve_parameters(circuit, resolver)
+        U = _ref_unitary([o for o in resolved.all_operations() if not cirq.is_measurement(o)], nq)
+        exp = {}
+        for i in range(2 ** nq):
+            p = float(abs(U[i, 0]) ** 2)
+            if p > 1e-9:
+                exp[_bits_be(i, nq)] = p
+        if not _cmp_dist(dict(got[j]), exp, atol=2e-5):
+            return bad(f"AQT local simulator: distribution of sampled rows (column i = qubit i) {dict(got[j])} != Born distribution {exp} "
+                       f"for {names} / {resolver}", kind="aqt_local")
+        nontrivial = nontrivial or len(exp) >= 2
+    return good(nontrivial=nontrivial or len(resolvers) > 1, paths=npaths)
 
 
 # ------------------------------------------------------------------------------------------------------------------
